@@ -784,12 +784,45 @@ static void mcmp_setup(ldb_comparator_t *cmp, int mode) {
   MCG.xd = NULL; MCG.xn = 0; MCG.yd = NULL; MCG.yn = 0;
 }
 
+#ifndef SKL_STUB_ARENA
 #include "util/arena.c"
+#else
+/* skl.e2e: nodes inside a 4 KiB byte block are intractable for CBMC (every link access is a symbolic-offset
+ * byte extract), so this unit uses an arena MODEL (the real arena is skl.arena_* and skl.mt_life):
+ * aligned requests (skip list nodes) are served from a pool of typed stores with 12 links, links beyond the
+ * requested size poisoned (not dereferenceable); unaligned requests (entries) get a fresh object of exactly
+ * the requested size. */
+#define POOL_N 4
+struct mem_pstore { const uint8_t *key; struct ldb_skipnode_s *volatile next[SKL_MAXH]; };
+static struct mem_pstore g_pool[POOL_N];
+static char g_mpoison_obj;
+#define MPOISON ((struct ldb_skipnode_s *)(&g_mpoison_obj + 1))
+struct stub_arena_ghost { int aligned_calls, plain_calls, inits, clears; size_t usage; size_t size[POOL_N]; int overflow; } SA;
+void ldb_arena_init(ldb_arena_t *arena) { arena->data = NULL; arena->left = 0; SA.inits++; }
+void ldb_arena_clear(ldb_arena_t *arena) { (void)arena; SA.clears++; }
+size_t ldb_arena_usage(const ldb_arena_t *arena) { (void)arena; return SA.usage; }
+void *ldb_arena_alloc_aligned(ldb_arena_t *arena, size_t size) {
+  int l, i = SA.aligned_calls;
+  (void)arena;
+  if (i >= POOL_N) { SA.overflow = 1; i = POOL_N - 1; }
+  for (l = 0; l < SKL_MAXH; l++) if (sizeof(void *) * (size_t)(l + 2) > size) g_pool[i].next[l] = MPOISON;
+  SA.size[i] = size; SA.aligned_calls++; SA.usage += size;
+  return &g_pool[i];
+}
+void *ldb_arena_alloc(ldb_arena_t *arena, size_t size) {
+  void *p = malloc(size);
+  (void)arena;
+  __CPROVER_assume(p != NULL);
+  SA.plain_calls++; SA.usage += size;
+  return p;
+}
+#endif
 #include "skiplist.c"
 #include "memtable.c"
 
 struct mem_hstore { const uint8_t *key; ldb_skipnode_t *volatile next[SKL_MAXH]; };
 
+#ifndef SKL_STUB_ARENA
 /* ------------------------------------------ ldb_memiter_key / ldb_memiter_value -- */
 void h_mi_kv(void) {
   ldb_memiter_t it;
@@ -895,6 +928,7 @@ void h_mt_life(void) {
   CANARY();
 }
 
+#else /* SKL_STUB_ARENA */
 /* ------------------------------------------- add, then iterate through the vtable -- */
 #ifndef E2E_K
 #define E2E_K 2
@@ -907,7 +941,8 @@ void h_e2e(void) {
   int i, j, ord[E2E_K];
   uint8_t tb[9]; ldb_slice_t t; ldb_slice_t k, v;
   IN_U8(in_t); IN_INT(in_pos);
-  heap_reset(); HG.big_symbolic = 1; RA.ghost = 0; RA.calls = 0; RA.j = 0; rand_reset(); RG.limit = 1;
+  heap_reset(); RA.ghost = 0; RA.calls = 0; RA.j = 0; rand_reset(); RG.limit = 2;
+  SA.aligned_calls = 0; SA.plain_calls = 0; SA.inits = 0; SA.clears = 0; SA.usage = 0; SA.overflow = 0;
   MC.j = 0; MC.calls = 0;
   mcmp_setup(&icmp, 1);
   mt = ldb_memtable_create(&icmp);
@@ -948,8 +983,12 @@ void h_e2e(void) {
     if (r < E2E_K) { ASSUME(in_pos == r); E2E_AT(in_pos, "seek"); } else CHECK(!ldb_iter_valid(iter), "seek: invalid when every key is smaller than the target"); }
   CHECK(ldb_iter_status(iter) == LDB_OK, "memiter status: OK");
   CHECK(!MCG.bad_self, "memtable: every comparison goes through the memtable's comparator copy");
-  CHECK(ldb_memtable_usage(mt) == 4096 + sizeof(void *) && HG.mallocs == 4, "memtable_usage: entries and nodes share the first arena block");
+  CHECK(SA.inits == 1 && SA.aligned_calls == 1 + E2E_K && SA.plain_calls == E2E_K && !SA.overflow, "memtable: one arena; one aligned allocation per skip list node (head + one per entry), one plain allocation per entry");
+  CHECK(ldb_memtable_usage(mt) == SA.usage, "memtable_usage: the arena's usage");
+  { int bad = 0, l; for (i = 0; i < POOL_N; i++) for (l = 0; l < SKL_MAXH; l++) if (i < SA.aligned_calls && sizeof(void *) * (size_t)(l + 2) > SA.size[i] && g_pool[i].next[l] != MPOISON) bad = 1;
+    CHECK(!bad, "skip list: no link is written beyond the size a node was allocated with"); }
   CANARY();
 }
 
+#endif /* SKL_STUB_ARENA */
 #endif /* SKL_MEM */
